@@ -230,9 +230,12 @@ def build(seed: int, family: str | None = None, allow_restart: bool = True) -> S
     # "gcmix": a grand-canonical run over particles of three different species whose only move is a double exchange
     # (composite of two), biased towards deletion: rejected double deletions in either index order are frequent
     mix = fam == "gcmix"
-    if mix:
+    # "gccoarse": a grand-canonical run of four atomic particles with a displacement move that groups them in rigid PAIRS
+    # (coarser than the exchange move), no default labels, long enough for "part of the top group deleted, then an insertion"
+    coarse = fam == "gccoarse"
+    if mix or coarse:
         fam = "gc"
-    sc.meta = {"family": ("gcmix" if mix else fam) + ("_noreset" if noreset else ""), "scenario_seed": int(seed)}
+    sc.meta = {"family": ("gcmix" if mix else "gccoarse" if coarse else fam) + ("_noreset" if noreset else ""), "scenario_seed": int(seed)}
     sim_seed = int(rs.randint(1, 2**31 - 1))
     if fam == "canon":
         molecular = rs.rand() < 0.4
@@ -310,8 +313,10 @@ def build(seed: int, family: str | None = None, allow_restart: bool = True) -> S
 
             mc.add_move(c + RecDisp(random_labels(rs, n, False), Ball(0.3)), criteria=IsobaricCriteria(), name="mixed")
     elif fam == "gc":
-        molecular = rs.rand() < 0.5 and not mix
+        molecular = rs.rand() < 0.5 and not mix and not coarse
         n0 = int(rs.randint(1, 4)) if not mix else int(rs.randint(3, 5))
+        if coarse:
+            n0 = 4
         if molecular:
             tmpl = Atoms("CO", positions=[[0, 0, 0], [0, 0, 1.13]])
             symbols = ["C", "O"] * n0
@@ -364,7 +369,7 @@ def build(seed: int, family: str | None = None, allow_restart: bool = True) -> S
         lab = lab0 * mult
         e = RecExch(lab.copy(), Translation() if not molecular else TranslationRotation(), bias_towards_insert=float(rs.choice([0.5, 0.5, 0.3, 0.7])))
         attach_veto(sc, e, 0.3)
-        if rs.rand() < 0.4:
+        if rs.rand() < 0.4 and not coarse:
             e.default_label = int(rs.choice([0, -1, 7, 2]))
         shape = rs.randint(7)
         mix_del2 = mix and rs.rand() < 0.5      # half of the gcmix runs: a single exchange move plus the two-deletions entry below
@@ -393,10 +398,16 @@ def build(seed: int, family: str | None = None, allow_restart: bool = True) -> S
             # either order inside the one trial: delete then insert, or insert then delete
             mc.add_move(CompositeMove([e_del, e_ins] if rs.rand() < 0.5 else [e_ins, e_del]), criteria=GrandCanonicalCriteria(), name="swap")
             mc.add_move(e, name="exch", probability=0.5)
-        if rs.rand() < 0.7:
+        if rs.rand() < 0.7 or coarse:
             d = RecDisp(lab.copy(), disp_op(rs, molecular))
+            # a displacement move that groups the atoms more COARSELY than the exchange move (two exchangeable particles =
+            # one rigid group): an accepted deletion may then remove part of a group, the rest keeps its label.  (Decided
+            # by a generator of its own: the scenarios of the other runs stay what they were.)
+            if coarse or (not molecular and not mix and np.random.RandomState((seed ^ 0x5EED) % (2**32)).rand() < 0.3):
+                d.set_labels(np.where(lab >= 0, lab // (2 * mult), lab))
+                sc.notes = [*getattr(sc, "notes", []), "coarse-displacement-groups"]
             attach_veto(sc, d, 0.3)
-            if rs.rand() < 0.3:
+            if rs.rand() < 0.3 and not coarse:
                 d.default_label = int(rs.choice([0, -1, 5]))
             r_ = rs.rand()
             if r_ < 0.25:
@@ -472,4 +483,6 @@ def build(seed: int, family: str | None = None, allow_restart: bool = True) -> S
     sc.meta["calc"] = type(calc).__name__
     sc.meta["calcStyle"] = getattr(calc, "style", "?")
     sc.steps = int(rs.randint(3, 9))
+    if coarse:
+        sc.steps = 25
     return sc
